@@ -275,7 +275,7 @@ func (w *Wrapper) getField(key string) any {
 		field := w.val.Field(i)
 		sf := w.val.Type().Field(i)
 
-		if key == sf.Tag.Get("json") && sf.Tag.Get("api") != "" {
+		if key == sf.Tag.Get("json") && isFieldTag(sf.Tag.Get("api")) {
 			if strings.HasPrefix(field.Type().String(), "*") && field.IsNil() {
 				return nil
 			}
@@ -296,7 +296,7 @@ func (w *Wrapper) setField(key string, v any) {
 		field := w.val.Field(i)
 		sf := w.val.Type().Field(i)
 
-		if key == sf.Tag.Get("json") && sf.Tag.Get("api") != "" {
+		if key == sf.Tag.Get("json") && isFieldTag(sf.Tag.Get("api")) {
 			if v == nil {
 				field.Set(reflect.New(field.Type()).Elem())
 				return
@@ -316,4 +316,10 @@ func (w *Wrapper) setField(key string, v any) {
 	}
 
 	panic(fmt.Sprintf("attribute %q does not exist", key))
+}
+
+// isFieldTag reports whether the api tag is the one of an attribute or of a
+// relationship.
+func isFieldTag(apiTag string) bool {
+	return apiTag == "attr" || strings.Split(apiTag, ",")[0] == "rel"
 }
